@@ -186,6 +186,8 @@ def run(tier):
         variants = [("ext", "asm")] if (i % 3 and not big) else [("int", "asm"), ("ext", "fit"), ("int", "cnt")]
         for bufk, mode in variants:
             cmds = ["new 0 int" if bufk == "int" else "new 0 ext 4096 H 0xcc"]
+            if (i + len(mode)) % 7 == 0 and len(text) < 300000:
+                cmds.append("debug 0 1")  # with the printers on (per instruction, and the whole buffer in chunk rows under fitting)
             if mode == "fit":
                 cmds.append("chunk 0 16")
             cmds.append(("cnt 0 8 %s" if mode == "cnt" else "asm 0 %s") % common.hx(text))
@@ -387,7 +389,7 @@ def run(tier):
     v.cov["rule"] = ("(a) libFuzzer (clang, ASan+UBSan, reports fatal) on a structure-aware target: 8 control bytes choose option values (incl. out-of-range), entry point (str, str+fitting, counting, file, file-counting, "
                      "two calls), chunk size, caller/library buffer, buffer length and start offset, the rest is the NUL-terminated text; dictionary of all mnemonics/registers/keywords/punctuation, seeds = the C01-C05 "
                      "corpora; %d jobs x %d runs; (b) directed sweeps: filtered line lengths 90-110 x 12 line shapes x 13 last-token kinds, 0-8 operands, every keyword pair, every byte value at every position of 6 templates, "
-                     "1 MiB lines, 10^5-line programs, valid and rejected lines with runs of 1000 .. 2^20 blanks / tabs at 17 positions (short after filtering, long as written), on caller and library buffers in plain/fitting/counting mode; the longest encodings the library emits (ALU/test/mov x 7 memory shapes x size keywords x immediates of 1-8 bytes, incl. ones the destination cannot hold: up to 17 bytes) x chunk sizes around their length x fill levels of the chunk, fitting and counting; programs whose last instructions sweep through the growth thresholds of the library buffer (6000, 12000, ...) under chunk sizes that do / do not divide 6000, with every growth forced to move the mapping; write positions up to INT_MAX on library buffers (grow that far or fail cleanly); (c) seeds + fuzzer corpus + sweeps replayed under MemorySanitizer. Oracle: no sanitizer report, no signal, "
+                     "1 MiB lines, 10^5-line programs (one sweep case in seven with debug printing on; the fuzz target switches it on for a quarter of its inputs), valid and rejected lines with runs of 1000 .. 2^20 blanks / tabs at 17 positions (short after filtering, long as written), on caller and library buffers in plain/fitting/counting mode; the longest encodings the library emits (ALU/test/mov x 7 memory shapes x size keywords x immediates of 1-8 bytes, incl. ones the destination cannot hold: up to 17 bytes) x chunk sizes around their length x fill levels of the chunk, fitting and counting; programs whose last instructions sweep through the growth thresholds of the library buffer (6000, 12000, ...) under chunk sizes that do / do not divide 6000, with every growth forced to move the mapping; write positions up to INT_MAX on library buffers (grow that far or fail cleanly); (c) seeds + fuzzer corpus + sweeps replayed under MemorySanitizer. Oracle: no sanitizer report, no signal, "
                      "no hang (10 s watchdog), return value in {0,1}. distinct_nontrivial = distinct directed cases + coverage edges reached by the fuzzer" % (njobs, per))
     v.cov["exhaustive"] = False
     v.cov.update(stats)
